@@ -474,7 +474,7 @@ impl ClientModel {
             if let Phase::InFlight { req, tx, .. } = self.phase.clone() {
                 if f.tx == Some(tx) {
                     let out = match decode_reply(&req.req, &f.pdu) {
-                        ReplyDecode::Ok(v) => OutClass::Ok(v),
+                        ReplyDecode::Ok(v) | ReplyDecode::OkLenient(v) => OutClass::Ok(v),
                         ReplyDecode::Exception(c) => OutClass::Exception(c),
                         ReplyDecode::Other => OutClass::BadResponse,
                     };
